@@ -125,6 +125,12 @@ func main() {
 			hsName, ver := name, sc.APIVersion
 			features := []tbin.Value{{T: tbin.I32, I: 1}}
 			switch step.Fault {
+			case "other-feature":
+				features = []tbin.Value{{T: tbin.I32, I: 2}}
+			case "other-features":
+				features = []tbin.Value{{T: tbin.I32, I: 2}, {T: tbin.I32, I: 7}}
+			case "extra-feature":
+				features = []tbin.Value{{T: tbin.I32, I: 2}, {T: tbin.I32, I: 1}}
 			case "wrong-name":
 				hsName = name + "-impostor"
 			case "wrong-version":
